@@ -21,7 +21,7 @@ type Scenario struct {
 	Prog     *gen.ImportProg `json:"prog"`
 	Contexts int             `json:"contexts"`
 	AsScript bool            `json:"as_script,omitempty"` // the main program is run as the code of a new module __main__ (py.RunCode with no module), not inside a prepared main module
-	Shared   bool            `json:"shared,omitempty"` // the contexts execute ONE code object of the main program (compiled once by the embedder)
+	Shared   bool            `json:"shared,omitempty"`    // the contexts execute ONE code object of the main program (compiled once by the embedder)
 	Order    simrt.MapOrder  `json:"order"`
 	SSeed    uint64          `json:"sseed"`
 	PNum     int             `json:"pnum"`
@@ -34,6 +34,9 @@ type Scenario struct {
 type Engine struct{}
 
 func init() { harness.Register(Engine{}) }
+
+// decoyContent is what a file without extension named like a module holds.
+const decoyContent = "this is ( not python\n"
 
 func (Engine) Name() string     { return "imports" }
 func (Engine) Property() string { return "C19" }
@@ -78,7 +81,15 @@ func (Engine) Prepare(batch []interface{}) error {
 			continue
 		}
 		after := sc.Prog.RenderAfter()
-		progs = append(progs, pyhost.RefProgram{ID: i, Main: sc.Prog.RenderMain(), After: &after, Files: sc.Prog.Files(), Late: sc.Prog.LateFiles(), Path: sc.Prog.Path})
+		files, dirs := sc.Prog.Files(), []string(nil)
+		for _, d := range sc.Prog.Decoys {
+			if strings.HasPrefix(d, "dir:") {
+				dirs = append(dirs, d[4:])
+			} else {
+				files[d[5:]] = decoyContent
+			}
+		}
+		progs = append(progs, pyhost.RefProgram{ID: i, Main: sc.Prog.RenderMain(), After: &after, Files: files, Dirs: dirs, Late: sc.Prog.LateFiles(), Path: sc.Prog.Path})
 	}
 	if len(progs) == 0 {
 		return nil
@@ -170,6 +181,13 @@ func (Engine) Exec(sci interface{}, opt harness.ExecOpts) *harness.Outcome {
 			n.TornN = len(n.Data) * 2 / 3
 		case "vanish":
 			n.Fault = simfs.FaultVanish
+		}
+	}
+	for _, d := range sc.Prog.Decoys {
+		if strings.HasPrefix(d, "dir:") {
+			fs.AddDir("/simcwd/" + d[4:])
+		} else {
+			fs.AddFile("/simcwd/"+d[5:], decoyContent)
 		}
 	}
 	simfs.Install(fs)
